@@ -611,14 +611,14 @@ func genC03(seed int64, tier string) []caseOut {
 	r := rand.New(rand.NewSource(seed))
 	var out []caseOut
 	for i := 0; i < n; i++ {
-		algs := [][]uint{{18}, {18}, {19}, {18, 19}, {19, 18}}[r.Intn(5)]
+		algs := [][]uint{{18}, {18, 19}, {19}, {19, 18}, {18}}[i%5] // every configuration shape in every run
 		cfg := baseProtocol(r)
 		cfg.MultihashAlgorithms = algs
 		cfg.MaxOperationHashLength = 200
 		sp := defaultSpec("create", r)
 		code := uint64(algs[r.Intn(len(algs))])
 		sp.deltaHashCode, sp.updCCode, sp.recCCode = code, code, code
-		switch r.Intn(6) {
+		switch (i / 5) % 6 {
 		case 0:
 			sp.origin = "origin.example"
 		case 1:
